@@ -234,7 +234,10 @@ def string_replace_map(line, lower=False):
         if included_keys:
             found_keys = found_keys.union(included_keys)
             for inc_key in included_keys:
-                entry = entry.replace(inc_key, string_map[inc_key], 1)
+                # Text that merely looks like one of our keys (and is
+                # therefore not in the map) is left untouched.
+                if inc_key in string_map:
+                    entry = entry.replace(inc_key, string_map[inc_key], 1)
             string_map[key] = entry
 
     return "".join(items), string_map
